@@ -377,6 +377,15 @@ macro_rules! with_stack {
                 };
                 (rec.log, r)
             }
+            "norep" => {
+                // a hook without its own replace, called directly: replace events go through the trait's default body
+                let mut rec = Rec::<false>::new($fail);
+                let r = {
+                    let $d = &mut rec;
+                    $body
+                };
+                (rec.log, r)
+            }
             "replace_twice" => {
                 // one long-lived Replace adapter fed the same diff twice: after finish it must be as good as new
                 let mut rec = Rec::<true>::new($fail);
